@@ -109,6 +109,17 @@ func engineDeterminism(ctx *Ctx) {
 		if sp.N < 2 {
 			sp.N = 6
 		}
+		switch ctx.G(d) % 24 { // sizes of real deployments (the shipped database has 6.6k entries): scoring may be organised differently above some size
+		case 5:
+			sp.N, sp.TieHeavy = 2049+r.Intn(700), true
+			ctx.R.Path("db-over-2048", 1)
+		case 13:
+			sp.N, sp.TieHeavy = 4097+r.Intn(900), true
+			ctx.R.Path("db-over-4096", 1)
+		case 21:
+			sp.N, sp.TieHeavy = 513+r.Intn(600), true
+			ctx.R.Path("db-over-512", 1)
+		}
 		var dbp string
 		var cmds []vlib.Cmd
 		dbName := fmt.Sprintf("gen-%d-%d", ctx.Shard, d)
@@ -268,6 +279,37 @@ func engineDeterminism(ctx *Ctx) {
 			}
 			if len(distinct) > 1 {
 				ctx.R.Path("cases-with-multiple-answers", 1)
+			}
+			// the other public search entry points (the similarity search and the pipeline search behind `wtf pipeline`)
+			for _, ep := range []struct {
+				name string
+				f    func(*database.Database) []database.SearchResult
+			}{
+				{"SearchWithNLP", func(x *database.Database) []database.SearchResult { return x.SearchWithNLP(c.Query, o) }},
+				{"SearchWithPipelineOptions", func(x *database.Database) []database.SearchResult { return x.SearchWithPipelineOptions(c.Query, o) }},
+			} {
+				ctx.R.Guard("C02", ep.name, cs, func() {
+					a0 := vlib.Canon(db.Commands, ep.f(db))
+					for i := 1; i < reps; i++ {
+						if a := vlib.Canon(db.Commands, ep.f(db)); !vlib.Exact(a0, a) {
+							ctx.R.Violate(vlib.Violation{Property: "C02", Clause: "repeat-call", Path: ep.name,
+								Detail:  fmt.Sprintf("call 1 and call %d on one loaded instance differ", i+1),
+								Witness: map[string]interface{}{"case": cs, "a": a0, "b": a}})
+							return
+						}
+					}
+					for fi, f := range fresh {
+						if a := vlib.Canon(f.Commands, ep.f(f)); !vlib.Exact(a0, a) {
+							ctx.R.Violate(vlib.Violation{Property: "C02", Clause: "reload", Path: ep.name,
+								Detail:  fmt.Sprintf("answer on independently loaded copy %d differs", fi+1),
+								Witness: map[string]interface{}{"case": cs, "a": a0, "b": a}})
+							return
+						}
+					}
+					if len(a0) > 0 {
+						ctx.R.Path("nonempty-"+ep.name, 1)
+					}
+				})
 			}
 			ctx.R.Path("search-evaluations", int64(reps+len(fresh)+len(procAns)))
 			// suggestions
